@@ -75,6 +75,11 @@ async def main():
     async with SCase(CASE, ctx) as sc:
         assert not sc.rejected, sc.rejected
         drv, sim = sc.drv, sc.sim
+
+        async def cmd(gen):
+            """run a command as Scheduler.process_command_queue does"""
+            await commands.run_cmd(gen)
+            sim.schd.is_updated = True
         schd = sim.schd
 
         def held():
@@ -95,13 +100,13 @@ async def main():
                     sim.deliver(m)
                 await drv.loop()
 
-        await commands.run_cmd(commands.hold(schd, ['1/b']))
+        await cmd(commands.hold(schd, ['1/b']))
         print('1. hold 1/b (not in the pool)   tasks_to_hold =', held())
         await fair(8)
         print('2. 1/a has run                  pool =', pool(),
               ' tasks_to_hold =', held())
         assert pool() == [('1/b', 'waiting', 'held')], pool()
-        await commands.run_cmd(
+        await cmd(
             commands.force_trigger_tasks(schd, ['1/a'], []))
         print('3. trigger 1/a (re-run parent)  pool =', pool(),
               ' tasks_to_hold =', held())
